@@ -192,6 +192,11 @@ func (f Frame) payloadOffset() int {
 }
 
 func (f *Frame) setPayloadLength(n int) *Frame {
+	if len(*f) < frameMaxHeaderLength {
+		// A pooled frame is as long as its last use (e.g. 6 bytes after an empty masked payload): make room for the
+		// longest header before writing the extended length.
+		*f = util.ExtendSlice(*f, frameMaxHeaderLength)
+	}
 	(*f)[1] &= (1 << 7)
 
 	if n > (1<<16 - 1) {
